@@ -37,6 +37,15 @@ def constructs(rnd=None):
         ("(u && v)", "(u and v)"),
         ("(u || v)", "(u or v)"),
         ("(u && v || w and z)", "(u and v or w and z)"),
+        # both spellings of one operator inside a single chain: one flat BoolOp, as with the keyword alone
+        ("(u and v && w)", "(u and v and w)"),
+        ("(u && v and w)", "(u and v and w)"),
+        ("(u || v or w)", "(u or v or w)"),
+        ("(u or v || w)", "(u or v or w)"),
+        ("(u && v and w && z and y)", "(u and v and w and z and y)"),
+        ("(u or v || w or z || y)", "(u or v or w or z or y)"),
+        ("(not u && v and not w)", "(not u and v and not w)"),
+        ("(u and v && w or z || y and x)", "(u and v and w or z or y and x)"),
     ]
     return out
 
